@@ -235,6 +235,14 @@ fn js_corpus() -> Vec<Project> {
         files.insert("/p/entry.ts".to_string(), "import parse from \"./gen/parser\";\nexport type Umlauts = \"z\" | \"\u{e4}\" | \"a\" | \"A\";\nexport type Digraphs = \"h\" | \"ch\" | \"i\" | \"c\";\nexport type Mixed = \"\u{e5}\" | \"aa\" | \"z\" | 10 | 9 | true;\nexport type Holder = { u: Umlauts; d?: Digraphs; m: Mixed[]; kind: \"\u{f6}\" | \"o\" | \"p\" };\nparse.buildParsers<{ Umlauts: Umlauts; Digraphs: Digraphs; Mixed: Mixed; Holder: Holder }>();\n".to_string());
         corpus.push(Project { id: "env_locale_literals".into(), origin: "verif/sim/src/tools.rs".into(), origin_kind: "synthetic".into(), entry: "/p/entry.ts".into(), settings: crate::model::Settings { string_formats: vec![], number_formats: vec![] }, module: "esm".into(), files });
     }
+    // ... and the same for everything else the runtime may put in order: property keys, keys of a Record, values of a
+    // discriminator, enum members (seeded change c13i-1 sorted property keys with localeCompare: da: z < aa, sv: z < ä,
+    // cs: h < ch; upper / lower case is ordered differently by code point and by every ICU collation)
+    {
+        let mut files = std::collections::BTreeMap::new();
+        files.insert("/p/entry.ts".to_string(), "import parse from \"./gen/parser\";\nexport type KeysSv = { z: string; \"\u{e4}\": number; a?: boolean; \"\u{e5}\": null; \"\u{f6}\"?: string[] };\nexport type KeysCs = { h: string; ch: number; i?: boolean; c: null; d: { ch: 1; h: 2; cz: 3 } };\nexport type KeysDa = { aa: string; z: number; ab?: boolean; \"\u{e5}\": 1 };\nexport type KeysCase = { b: 1; B: 2; a: 3; A: 4; _x: 5; \"1\": 6; \"10\": 7; \"9\": 8 };\nexport type RecSv = Record<\"z\" | \"\u{e4}\" | \"\u{f6}\" | \"a\", number>;\nexport type RecCs = Partial<Record<\"h\" | \"ch\" | \"i\", KeysCs>>;\nexport type DiscSv = { kind: \"z\"; a: string } | { kind: \"\u{e4}\"; b: number } | { kind: \"a\"; c: boolean };\nexport type DiscCs = { kind: \"h\"; a: string } | { kind: \"ch\"; b: number } | { kind: \"i\"; c: boolean };\nexport enum EnumSv { Zed = \"z\", Ae = \"\u{e4}\", Ay = \"a\" }\nexport type UsesAll = { sv: KeysSv; cs: KeysCs; da: KeysDa; e: EnumSv; d: DiscSv | null; t: [KeysCase, RecSv] };\nparse.buildParsers<{ KeysSv: KeysSv; KeysCs: KeysCs; KeysDa: KeysDa; KeysCase: KeysCase; RecSv: RecSv; RecCs: RecCs; DiscSv: DiscSv; DiscCs: DiscCs; EnumSv: EnumSv; UsesAll: UsesAll }>();\n".to_string());
+        corpus.push(Project { id: "env_locale_keys".into(), origin: "verif/sim/src/tools.rs".into(), origin_kind: "synthetic".into(), entry: "/p/entry.ts".into(), settings: crate::model::Settings { string_formats: vec![], number_formats: vec![] }, module: "esm".into(), files });
+    }
     // modules of the recorded histories (corpus/regress_jsim_projects.json, tools/build_regress.py)
     if let Ok(txt) = std::fs::read_to_string(format!("{}/corpus/regress_jsim_projects.json", crate::coord::home())) {
         if let Ok(ps) = serde_json::from_str::<Vec<Project>>(&txt) {
